@@ -660,6 +660,7 @@ def Tx.valid (t : Tx) : Bool :=
   trim t.security == t.security && !t.security.isEmpty &&
   t.tradeDate.valid && t.settleDate.valid &&
   fromStrep t.affiliate.name == t.affiliate &&
+  trim t.affiliate.name == t.affiliate.name && !t.affiliate.name.isEmpty &&
   t.spec.valid
 
 /-! ## What "the same transactions" means -/
